@@ -4,17 +4,35 @@
 pub use wtransport_proto::ids::StreamId;
 pub use wtransport_proto::varint::VarInt;
 
-pub mod error {
-    use crate::VarInt;
-    // sliced: StreamWriteError, StreamReadError, StreamReadExactError, ClosedStream (wtransport/src/error.rs)
-    include!("gen/error_items.rs");
+/// MODEL of `quinn::Connection` for `ConnectionError::{with_driver_error,no_connect}`: only `close_reason()` is used
+pub struct ModelConnection {
+    pub close_reason: Option<quinn::ConnectionError>,
 }
 
-pub mod utils {
-    use crate::VarInt;
-    // sliced: varint_q2w, varint_w2q (wtransport/src/driver/utils.rs)
-    include!("gen/utils_items.rs");
+impl ModelConnection {
+    pub fn close_reason(&self) -> Option<quinn::ConnectionError> {
+        self.close_reason.clone()
+    }
 }
+
+/// wtransport/src/error.rs re-hosted as a whole (src/gen/error.rs; parameter type substitution only)
+#[path = "gen/error.rs"]
+pub mod error;
+
+pub mod driver {
+    use crate::error::ApplicationClose;
+    use wtransport_proto::error::ErrorCode;
+    // sliced: DriverError (wtransport/src/driver/mod.rs)
+    include!("gen/driver_error.rs");
+
+    pub mod utils {
+        use crate::VarInt;
+        // sliced: varint_q2w, varint_w2q (wtransport/src/driver/utils.rs)
+        include!("gen/utils_items.rs");
+    }
+}
+
+pub use driver::utils;
 
 pub mod streams {
     use crate::error::ClosedStream;
